@@ -11,7 +11,9 @@ package internal_test
 
 import (
 	"fmt"
+	"google.golang.org/grpc/connectivity"
 	"strings"
+	"sync/atomic"
 	"testing"
 	"time"
 
@@ -661,4 +663,215 @@ func TestVerifC15RaceJoinDuringReload(t *testing.T) {
 	defer m.Done()
 	defer c15Wall(m, time.Now())
 	c15JoinDuringReloadFamily(m, vk.N(40, 600))
+}
+
+// ---- a subscriber joins while a reload's snapshot request is in flight ----------
+//
+// Gated at the dependency: every Get of the model etcd parks until the harness
+// serves it. Changes are missed; a reload is started (directly, or by the real
+// stateWatcher after a loss) and its snapshot Get is in flight; a second
+// subscriber of the same key calls NewSubscriber - it is replayed the cluster's
+// (stale) knowledge, registers, and its own snapshot Get is in flight too; the
+// reload's Get is served first (its diff is announced, the cluster's knowledge
+// replaced), then the newcomer's. Also with the opposite serving order. reload()
+// itself has returned before the join, so monitor's unlocked reads are ordered
+// after reload's writes through the cluster lock. At quiescence every
+// subscriber equals the model.
+
+func (w *c15World) joinDuringReloadGet(g *c15Gen, excl, viaTrigger, newcomerFirst bool, missed func()) {
+	if len(w.live) != 1 || len(w.subs) == 0 || w.pending() != 0 {
+		w.inconclusive("join-during-reload-get scenario not set up (live=%d pending=%d)", len(w.live), w.pending())
+		return
+	}
+	w.tag = "join-during-reload-get"
+	svc := w.svcs[0]
+	missed()
+	nMissed := w.pending()
+	w.etcd.gateOn()
+	defer w.etcd.gateOff()
+	nb := w.etcd.watchCount()
+	done := make(chan struct{})
+	if viaTrigger {
+		w.ops = append(w.ops, c15Op{Op: "state", S: "failure"}, c15Op{Op: "state", S: "ready"})
+		w.trig.Feed(connectivity.TransientFailure)
+		before := atomic.LoadInt64(&w.fired)
+		w.trig.Feed(connectivity.Ready)
+		if atomic.LoadInt64(&w.fired) == before {
+			w.violate("C15:reconnect:no-reload", "connection reported ready after a loss but the state watcher did not start a reload (pending missed events: %d)", w.pending())
+			return
+		}
+		go func() { <-w.reloaded; close(done) }()
+	} else {
+		w.ops = append(w.ops, c15Op{Op: "reload", S: "snapshot Get in flight"})
+		go func() {
+			internal.C15Reload(w.eps, w.etcd)
+			close(done)
+		}()
+	}
+	select {
+	case <-done:
+	case <-time.After(c15Watchdog):
+		w.reloadBlocked("reload whose snapshot request is in flight")
+		return
+	}
+	if !vk.WaitUntil(c15Watchdog, func() bool { return w.etcd.gatedCount() >= 1 }) {
+		w.inconclusive("the reload's snapshot Get did not arrive")
+		return
+	}
+	w.ops = append(w.ops, c15Op{Op: "sub-while-reload-get-in-flight", X: excl})
+	type res struct {
+		sub *discov.Subscriber
+		err error
+	}
+	joined := make(chan res, 1)
+	go func() {
+		var opts []discov.SubOption
+		if excl {
+			opts = append(opts, discov.Exclusive())
+		}
+		sub, err := discov.NewSubscriber(w.endpoints(), svc, opts...)
+		joined <- res{sub, err}
+	}()
+	if !vk.WaitUntil(c15Watchdog, func() bool { return w.etcd.gatedCount() >= 2 }) {
+		w.inconclusive("the newcomer's snapshot Get did not arrive while the reload's is in flight")
+		return
+	}
+	var nr res
+	gotJoin := false
+	waitJoin := func() bool {
+		select {
+		case nr = <-joined:
+			gotJoin = true
+			return true
+		case <-time.After(c15Watchdog):
+			w.wedged = true
+			w.inconclusive("NewSubscriber did not return after its snapshot request was served")
+			return false
+		}
+	}
+	if newcomerFirst {
+		// the Gets are parked in arrival order: reload's first. Serve both, the newcomer's
+		// load can complete first only if the reload's is slower - serve, then wait for the join
+		w.ops = append(w.ops, c15Op{Op: "serve-both-gets"})
+		w.etcd.releaseOldest()
+		w.etcd.releaseOldest()
+		if !waitJoin() {
+			return
+		}
+	} else {
+		w.ops = append(w.ops, c15Op{Op: "serve-reload-get"})
+		w.etcd.releaseOldest()
+		if !vk.WaitUntil(c15Watchdog, func() bool { return w.etcd.watchCount() >= nb+1 }) {
+			w.inconclusive("the reload did not re-watch after its snapshot was served")
+			return
+		}
+		w.ops = append(w.ops, c15Op{Op: "serve-newcomer-get"})
+		w.etcd.releaseOldest()
+		if !waitJoin() {
+			return
+		}
+	}
+	if !gotJoin || nr.err != nil || nr.sub == nil {
+		w.inconclusive("NewSubscriber failed: %v", nr.err)
+		return
+	}
+	w.etcd.gateOff()
+	s1 := &c15Sub{id: len(w.subs), svc: svc, excl: excl, sub: nr.sub, own: map[string]map[string]bool{}, tainted: true}
+	nr.sub.AddListener(s1.listener)
+	w.subs = append(w.subs, s1)
+	w.nAttach++
+	w.nLate++
+	if !w.waitWatches(nb+2, "reload + join") {
+		return
+	}
+	w.live = w.etcd.watchesFrom(nb)
+	// the order in which the two snapshots were announced is not fixed: weak oracle for
+	// exclusive subscribers of the key from here on
+	for _, s := range w.subsOf(svc) {
+		if s.excl {
+			s.tainted = true
+		}
+	}
+	w.syncSvc(svc)
+	w.delivered = w.etcd.logLen()
+	w.nMissed += nMissed
+	w.nReloads++
+	if nMissed > 0 {
+		w.nReloadsAfterMiss++
+	}
+	w.m.Count("joins_while_reload_get_in_flight", 1)
+	if !w.pump(w.delivered, 1) {
+		return
+	}
+	w.check("join-during-reload-get")
+}
+
+func c15JoinDuringReloadGetFamily(m *vk.M, n int) {
+	kinds := map[string]int64{}
+	for idx := 1; idx <= n; idx++ {
+		if !m.Only(idx) {
+			continue
+		}
+		r := m.Rand("joinreloadget", idx)
+		w := newC15World(m, idx, r, []string{"c15.joinget"})
+		if w.incon {
+			return
+		}
+		g := newC15Gen(w, r, idx%2 == 0)
+		for i := r.Intn(3); i > 0; i-- {
+			g.putOrDel(true)
+		}
+		w.exec(c15Op{Op: "sub"})
+		if r.Intn(3) == 0 {
+			w.exec(c15Op{Op: "sub", X: true})
+		}
+		for i := r.Intn(3); i > 0 && !w.stopped(); i-- {
+			g.putOrDel(r.Intn(2) == 0)
+			w.exec(c15Op{Op: "pump", M: 1})
+		}
+		w.exec(c15Op{Op: "reload"}) // one stream
+		if !w.stopped() {
+			w.joinDuringReloadGet(g, idx%3 == 0, idx%2 == 0, idx%5 == 0, func() {
+				for i := 1 + r.Intn(3); i > 0; i-- {
+					g.putOrDel(r.Intn(2) == 0)
+				}
+			})
+		}
+		for i := 0; i < 4 && !w.stopped(); i++ {
+			g.putOrDel(r.Intn(2) == 0)
+			if r.Intn(2) == 0 {
+				w.exec(c15Op{Op: "pump", M: r.Intn(3)})
+			}
+		}
+		if !w.stopped() {
+			w.exec(c15Op{Op: "pump"})
+			w.exec(c15Op{Op: "reload"})
+		}
+		if w.incon {
+			return
+		}
+		wedged := w.wedged
+		c15Finish(m, w, kinds, 11)
+		if wedged {
+			break
+		}
+	}
+	c15FlushKinds(m, kinds)
+}
+
+func TestVerifC15JoinDuringReloadGet(t *testing.T) {
+	logx.Disable()
+	m := vk.New(t, "C15", "missed changes, then a reload (direct or started by the real stateWatcher) whose snapshot Get is held in flight by the model etcd; a second subscriber of the key joins meanwhile (its own Get in flight as well); the reload's Get is served first, then the newcomer's (or both at once); "+c15Rule)
+	defer m.Done()
+	defer c15Wall(m, time.Now())
+	c15JoinDuringReloadGetFamily(m, vk.N(120, 3000))
+}
+
+// TestVerifC15RaceJoinDuringReloadGet: the same gated family under the race detector.
+func TestVerifC15RaceJoinDuringReloadGet(t *testing.T) {
+	logx.Disable()
+	m := vk.New(t, "C15", "join-during-reload-get family under the race detector; "+c15Rule)
+	defer m.Done()
+	defer c15Wall(m, time.Now())
+	c15JoinDuringReloadGetFamily(m, vk.N(40, 600))
 }
